@@ -57,13 +57,17 @@ class C06:
     def strategy(self, tier):
         lat = st.lists(st.sampled_from(simbus.LATENCY_GRID[1:]), min_size=1, max_size=3)
         return st.builds(
-            lambda sh, resid, cls, a, lo, lr, eps, sas, tx, tm: dict(sh, resid=resid, cls=cls, a=a, lat={"O": lo, "R": lr}, eps=eps, sas=sas,
-                                                                   tx_time=tx, app_timer=tm),
+            lambda sh, resid, cls, a, lo, lr, eps, sas, tx, tm, rt: dict(sh, resid=resid, cls=cls, a=a, lat={"O": lo, "R": lr}, eps=eps, sas=sas,
+                                                                       tx_time=tx, app_timer=tm, retry=rt),
             st.sampled_from(shapes()), st.integers(1, 60), st.sampled_from(["pos", "ff", "zero", "arith"]),
             st.integers(0, 255), lat, lat, st.lists(st.sampled_from([0.0, 1e-5, 1e-3]), min_size=1, max_size=2),
             st.sampled_from([[0x21, 0x42], [0x21, 0x42], [0x00, 0x42], [0x21, 0x00], [0x01, 0xFD], [0xFD, 0x80], [0xF8, 0x7F]]), st.sampled_from([0.0, 0.0, 0.0001, 0.0005]),
             # a cyclic application timer (e.g. a DM1 cycle) on either ECU: [period, on which stack]
-            st.sampled_from([None, None, [0.4, "O"], [1.0, "R"], [2.0, "O"], [2.0, "R"], [0.7, "both"]]))
+            st.sampled_from([None, None, [0.4, "O"], [1.0, "R"], [2.0, "O"], [2.0, "R"], [0.7, "both"]]),
+            # an impatient application: it has a second message of the same PGN and length and calls send_pgn every so many
+            # seconds until the call is accepted (so the next transfer starts as soon as the originator has given the first one up,
+            # possibly before the responder has)
+            st.sampled_from([None, None, 0.03, 0.1]))
 
     def examples(self, tier):
         return 60 if tier == "quick" else 20000
@@ -75,7 +79,8 @@ class C06:
             out.append(dict(sh, resid=[seg, 1, seg - 1, 3][i % 4], cls=["pos", "ff", "arith", "zero"][(i // 4) % 4], a=i,
                             lat=LAT_DEFAULT, eps=[0.0, 1e-5],
                             sas=[[0x21, 0x42], [0x00, 0x42], [0x21, 0x00], [0xFD, 0x01]][(i // 3) % 4],
-                            app_timer=[None, None, [2.0, "O"], None, [2.0, "R"], [0.7, "both"]][i % 6]))
+                            app_timer=[None, None, [2.0, "O"], None, [2.0, "R"], [0.7, "both"]][i % 6],
+                            retry=[None, None, None, 0.1, None][i % 5]))
         return out
 
     def exhaustive(self, tier):
@@ -121,6 +126,23 @@ class C06:
             data = W.make_payload({"n": size, "cls": p["cls"], "a": p["a"], "seg": seg})
             res = {}
             w.at(0.05, lambda: res.__setitem__("r1", o.cas["o"].send_pgn(0, PF, da, 6, list(data))))
+            retry = p.get("retry")
+            data_b = W.make_payload({"n": size, "cls": "arith", "a": p["a"] + 3, "b": 11})
+            if bytes(data_b) == bytes(data):
+                data_b[0] ^= 0x55
+            if retry:
+                def poll():
+                    if "rb" in res or res.get("stop_poll"):
+                        return
+                    try:
+                        ok = o.cas["o"].send_pgn(0, PF, da, 6, list(data_b))
+                    except Exception as e:  # noqa
+                        ok = "EXC:%r" % (e,)
+                    if ok is False and w.sim.now < w.t0 + 12.0:
+                        w.at(w.sim.now - w.t0 + retry, poll)
+                    else:
+                        res["rb"] = ok
+                w.at(0.05 + retry, poll)
             bound = 1.25 + (3.0 if (fd and p["mode"] == "rts") else 0.0) + 0.1
             # run until the exchange has been quiet for the bound
             w.run_until(w.t0 + 0.06)
@@ -142,6 +164,9 @@ class C06:
             obs["tables"] = (o.peek_sessions(), r.peek_sessions())
             obs["live1"] = w.liveness_problems()
             obs["data"] = bytes(data)
+            obs["data_b"] = bytes(data_b)
+            obs["rb"] = res.get("rb")
+            res["stop_poll"] = True
             # reconnect and follow-up on the same pair
             w.bus.silence = {}
             w.bus.silenced.clear()
@@ -179,7 +204,26 @@ class C06:
         got = [d for d in obs["deliv_r"] if d[3] == pgn and d[4] == SA_O]
         other = [d for d in obs["deliv_r"] if not (d[3] == pgn and d[4] == SA_O)]
         completed = False
-        if len(got) > 1:
+        retry = p.get("retry")
+        if retry:
+            # the impatient application's second message (same PGN, same length): each delivery is exactly one of the two payloads
+            site += "|retry"
+            db = obs["data_b"]
+            for d in got:
+                if d[5] != data and d[5] != db:
+                    V("corrupt-mixed", "receiver got %d bytes that are neither the first message nor the application's second one "
+                      "(the second send_pgn call was accepted: %r); first difference to the first message at offset %d, to the second at "
+                      "offset %d" % (len(d[5]), obs.get("rb"),
+                                     next((i for i, (a, b) in enumerate(zip(d[5], data)) if a != b), min(len(d[5]), len(data))),
+                                     next((i for i, (a, b) in enumerate(zip(d[5], db)) if a != b), min(len(d[5]), len(db)))), site)
+            na, nb_ = sum(1 for d in got if d[5] == data), sum(1 for d in got if d[5] == db)
+            if na > 1 or nb_ > 1:
+                V("delivered-twice", "payloads delivered %d / %d times" % (na, nb_), site)
+            completed = na == 1
+            if fault is None and (nb_ != 1 or obs.get("rb") is not True):
+                V("baseline-not-delivered", "fault-free: the application's second message (send_pgn -> %r) was delivered %d times" %
+                  (obs.get("rb"), nb_), site)
+        elif len(got) > 1:
             V("delivered-twice", "payload delivered %d times" % len(got), site)
         elif len(got) == 1:
             if got[0][5] != data:
@@ -196,7 +240,7 @@ class C06:
             V("baseline-not-delivered", "fault-free transfer was not delivered", site)
         # "the standard's timeout for the state they are in": a responder that waits for the NEXT data packet inside a window
         # (it has accepted an in-sequence data packet that did not complete the window it granted) gives up after T1 = 0.75 s
-        if p["mode"] == "rts" and fault is not None and not completed:
+        if p["mode"] == "rts" and fault is not None and not completed and not retry:
             dt_pf, cm_pf = (R.FD_DT_PF, R.FD_CM_PF) if fd else (R.TP_DT_PF, R.TP_CM_PF)
             ev = [(t_, 0, "rx", f_.can_id, bytes(f_.data)) for (t_, f_) in obs.get("rx_r_t", [])]
             ev += [(e.t, 1, "tx", e.can_id, bytes(e.data)) for e in obs["log1"] if e.node == "R"]
@@ -232,7 +276,7 @@ class C06:
         if tr is not None and any(tr):
             V("session-not-released", "responder tables (rcv,snd,mpg)=%r still occupied after the bound" % (tr,), site + "|resp")
         # abort requirement (connection mode only)
-        if p["mode"] == "rts" and fault is not None:
+        if p["mode"] == "rts" and fault is not None and not retry:
             self._judge_abort(p, obs, V, site, completed)
         # follow-up
         if obs["r2"] is not True:
